@@ -137,8 +137,9 @@ class NsHandler:
                 capitalize = case == "first-letter"
         if capitalize:
             first = tag[0:1].upper()
-            # a letter without a one-character upper case (sharp s) is left alone, as MediaWiki does
-            if len(first) == 1:
+            # a letter without a one-character upper case (sharp s) is left alone, as MediaWiki does;
+            # so are Georgian letters: their Unicode upper case (Mtavruli, U+1C90..U+1CBF) is not used for titles
+            if len(first) == 1 and not "\u1c90" <= first <= "\u1cbf":
                 return first + tag[1:]
         return tag
 
